@@ -18,6 +18,7 @@ CONSTANTS
   MaxForce = 1
   MaxLag = 0
   MaxProbes = 1
+  MaxReorg = 0
   ExportOn = TRUE
   SampleMod = 60
 INIT Init
